@@ -58,6 +58,7 @@ type FuncContract struct {
 	CallPres  []CallPre
 	NoCalls   []string
 	Witnesses []Witness
+	Measure   Expr // decreases <expr>: non-negative measure that strictly decreases at every call back into the recursion
 }
 
 // Witness: when proving the clause "ensures @Label exists Name T :: body" in the function's own VC,
@@ -494,6 +495,12 @@ func (cs *Contracts) LoadContractFile(path, pkg string) error {
 			cur.Transfers = append(cur.Transfers, Transfer{Callee: w2, E: e, Src: rest})
 		case "produces":
 			cur.Produces = append(cur.Produces, splitList(rest)...)
+		case "decreases":
+			e, err := ParseExpr(rest)
+			if err != nil {
+				return fail("%v", err)
+			}
+			cur.Measure = e
 		case "witness":
 			// witness @label name = expr
 			fs := strings.SplitN(rest, " ", 2)
